@@ -362,16 +362,16 @@ LV(col, n, nc, parent, path) ==
     [] col.k = "named" -> LET in == LV(col.in, n, nc, parent, path) IN
          IF IsPanic(in) THEN Panic ELSE [k |-> "named", name |-> col.name, in |-> in]
     [] col.k = "err" ->
-         \* error_{vals: newShadow(m.Values, n, nc), nulls{meta: n}}; flattenNulls hands nil to the child
+         \* error_{vals: newShadow(m.Values, n, nc), nulls{meta: n}}; flattenNulls hands the
+         \* parent's nulls on to the values (d09869412)
          LET flat == Flatten(LocalMask(n), parent)
-             in == LV(col.in, n, nc, NoMask, path) IN
+             in == LV(col.in, n, nc, parent, path) IN
          IF IsPanic(in) THEN Panic ELSE [k |-> "err", nulls |-> flat, in |-> in]
     [] col.k \in {"plain", "const", "dict"} ->
          LET flat == Flatten(LocalMask(n), parent)
              len == col.cnt + nc IN
-         \* loadVals / loadDict have no case for enum types (only a Const needs none)
-         IF col.pt = "e" /\ col.k # "const" THEN Panic
-         ELSE IF col.k = "plain" THEN
+         \* (enum columns are loaded as unsigned vectors, 1f68c5df7)
+         IF col.k = "plain" THEN
               IF col.cnt = 0 THEN [k |-> "plain", len |-> len, nulls |-> flat, vals |-> Eager([j \in 1..len |-> 0])]
               ELSE IF flat # NoMask /\ Len(flat) # len THEN Panic        \* "BAD NULLS LEN"
               ELSE [k |-> "plain", len |-> len, nulls |-> flat, vals |-> Place(len, flat, col.vals, 1, 1)]
@@ -393,21 +393,21 @@ LV(col, n, nc, parent, path) ==
     [] col.k \in {"arr", "set"} ->
          LET flat == Flatten(LocalMask(n), parent)
              len == col.len + nc
-             in == LV(col.in, NoMask, 0, NoMask, path) IN      \* the SAME path goes down
+             in == LV(col.in, NoMask, 0, NoMask, <<>>) IN      \* everything under a container is loaded whole (b8e7ab086)
          IF IsPanic(in) THEN Panic
          ELSE [k |-> col.k, len |-> len, nulls |-> flat, offs |-> Offsets(len, flat, col.lens, 1, 1, 0), in |-> in]
     [] col.k = "map" ->
          LET flat == Flatten(LocalMask(n), parent)
              len == col.len + nc
-             ks == LV(col.keys, NoMask, 0, NoMask, path)
-             vs == LV(col.vals, NoMask, 0, NoMask, path) IN
+             ks == LV(col.keys, NoMask, 0, NoMask, <<>>)
+             vs == LV(col.vals, NoMask, 0, NoMask, <<>>) IN
          IF IsPanic(ks) \/ IsPanic(vs) THEN Panic
          ELSE [k |-> "map", len |-> len, nulls |-> flat, offs |-> Offsets(len, flat, col.lens, 1, 1, 0), keys |-> ks, vals |-> vs]
     [] col.k = "union" ->
          \* the tags segment holds one entry per NON-null value; vector.Union
          \* takes its length from it and never consults the nulls
          LET flat == Flatten(LocalMask(n), parent)
-             vs == Eager([j \in 1..Len(col.vals) |-> LV(col.vals[j], NoMask, 0, NoMask, path)]) IN
+             vs == Eager([j \in 1..Len(col.vals) |-> LV(col.vals[j], NoMask, 0, NoMask, <<>>)]) IN
          IF \E j \in 1..Len(vs) : IsPanic(vs[j]) THEN Panic
          ELSE [k |-> "union", len |-> Len(col.tags), nulls |-> flat, tags |-> col.tags, vals |-> vs]
 
@@ -528,25 +528,23 @@ Nav(d, path) ==
 VARIABLE seq
 Elems == UNION {[t : {j}, d : Alpha[j]] : j \in 1..Len(Types)}
 
-\* ---- the modelled defects of the real vector path (see known_findings.d/c03.jsonl).
-\* The guards follow the loader's own bookkeeping: nc = count.nulls at the node.
+\* ---- the one modelled defect of the real vector path that is still open
+\* (known_findings.d/c03.jsonl, F-C03-1).  The guard follows the loader's own
+\* bookkeeping: nc = count.nulls at the node.
 \*  "union-nulls": a union vector whose slots include nulls (its own or those
 \*     of an enclosing record): the tags hold one entry per non-null value
 \*     and vector.Union never consults the nulls.
-\*  "error-nulls": an error vector under a record that has nulls: the
-\*     error's values are flattened without the parent's nulls.
-\*  "enum": the loader has no case for enum types (dict and plain columns).
+\* (Repaired and no longer guarded: error values under a nullable record
+\* d09869412, enum columns 1f68c5df7, paths reaching into containers b8e7ab086.)
 RECURSIVE Defects(_, _)
 Defects(col, nc) ==
   CASE col.k = "nulls" -> Defects(col.in, nc + col.cnt)
-    [] col.k = "named" -> Defects(col.in, nc)
-    [] col.k = "err"   -> (IF nc > 0 THEN {"error-nulls"} ELSE {}) \cup Defects(col.in, nc)
+    [] col.k \in {"named", "err"} -> Defects(col.in, nc)
     [] col.k = "rec"   -> UNION {Defects(col.fields[f], nc) : f \in 1..Len(col.fields)}
     [] col.k \in {"arr", "set"} -> Defects(col.in, 0)
     [] col.k = "map"   -> Defects(col.keys, 0) \cup Defects(col.vals, 0)
     [] col.k = "union" -> (IF nc > 0 THEN {"union-nulls"} ELSE {})
                           \cup UNION {Defects(col.vals[j], 0) : j \in 1..Len(col.vals)}
-    [] col.k \in {"plain", "dict"} -> IF col.pt = "e" THEN {"enum"} ELSE {}
     [] OTHER -> {}
 ColsOf(e) == IF e.k = "single" THEN <<e.col>> ELSE e.cols
 DefectsOf(e) == UNION {Defects(ColsOf(e)[j], 0) : j \in 1..Len(ColsOf(e))}
@@ -559,24 +557,7 @@ ProjAt(e, paths) ==
   /\ ~IsPanicSeq(pr) /\ Len(pr) = Len(seq)
   /\ \A i \in 1..Len(seq) : \A j \in 1..Len(paths) :
         Flat(Nav(pr[i].d, paths[j])) = Flat(Nav(seq[i].d, paths[j]))
-\*  "partial-load": a path that continues into an array/set/map/union makes
-\*     the loader skip fields of the element records which project() (called
-\*     with a nil path below containers) then dereferences.
-RECURSIVE UnlUnder(_, _)
-UnlUnder(v, under) ==
-  CASE v.k = "unloaded" -> under
-    [] v.k = "rec" -> \E f \in 1..Len(v.fields) : UnlUnder(v.fields[f], under)
-    [] v.k \in {"arr", "set"} -> UnlUnder(v.in, TRUE)
-    [] v.k = "map" -> UnlUnder(v.keys, TRUE) \/ UnlUnder(v.vals, TRUE)
-    [] v.k = "union" -> \E j \in 1..Len(v.vals) : UnlUnder(v.vals[j], TRUE)
-    [] v.k \in {"named", "err"} -> UnlUnder(v.in, under)
-    [] OTHER -> FALSE
-PartialLoad(e, paths) ==
-  LET path == NewProjection(paths, 1, <<>>) IN
-  \E j \in 1..Len(ColsOf(e)) :
-     LET vec == LV(ColsOf(e)[j], NoMask, 0, NoMask, path) IN ~IsPanic(vec) /\ UnlUnder(vec, FALSE)
-ProjOK == LET e == Enc(seq) IN
-          Defect(e) \/ \A paths \in Projections : PartialLoad(e, paths) \/ ProjAt(e, paths)
+ProjOK == LET e == Enc(seq) IN Defect(e) \/ \A paths \in Projections : ProjAt(e, paths)
 
 \* ---- export: the case, the predicted column tree and both predicted reads
 RECURSIVE Shape(_)
@@ -597,8 +578,7 @@ Case(sq) ==
    cols |-> Eager([j \in 1..Len(ColsOf(e)) |-> Shape(ColsOf(e)[j])]),
    row |-> FlatSeq(DecSeq(e)), vec |-> FlatSeq(LoadSeq(e)), want |-> FlatSeq(sq), defects |-> DefectsOf(e),
    proj |-> LET ps == SetToSeq(Projections) IN
-            Eager([q \in 1..Len(ps) |-> [paths |-> ps[q], res |-> FlatSeq(ProjSeq(ps[q], e)),
-                                          partial |-> PartialLoad(e, ps[q])]])]
+            Eager([q \in 1..Len(ps) |-> [paths |-> ps[q], res |-> FlatSeq(ProjSeq(ps[q], e))]])]
 
 Init == seq = <<>>
 Next == /\ Len(seq) < MaxLen
